@@ -40,6 +40,19 @@ def generate_checking_code(typ):
         return CodeGen("isinstance({arg}, {this})", this=typ)
 
 
+def generate_guarded_checking_code(typ):
+    """Checking code for a type that appears inside a Union or Intersection.
+
+    A dependent type's own code assumes its bound was already checked, which is
+    not the case for a member of a combination.
+    """
+    cg = generate_checking_code(typ)
+    if isinstance(typ, DependentType) and typ.bound is not object:
+        guard = generate_checking_code(typ.bound)
+        return combine("(({}) and ({}))", [guard, cg])
+    return cg
+
+
 class CodeGen:
     def __init__(self, template, substitutions={}, **substitutions_kw):
         self.template = template
